@@ -59,3 +59,7 @@ def gen_cases(rng, tier):
     c, d3 = G.cast_cases(rng, tier)
     d1.update(d2); d1.update(d3)
     return a + b + c, d1
+
+
+def monitor(l, impl_rows, kv):
+    return G.ir_monitor(l, impl_rows)
